@@ -31,6 +31,11 @@ func verifC06(native bool, nEntries int, integer bool) {
 	sh := zz.Shard(36)
 	lens := []int{sh % 2, sh / 2 % 2}
 	extras := []int{sh / 4 % 3, sh / 12 % 3}
+	if vC06BigHeaders {
+		// headers whose 16-bit block count is at and around a multiple of 256
+		big := []int{255, 256, 257, 512}
+		extras = []int{big[sh/4%3+sh/12%2], sh / 12 % 3}
+	}
 	err := env.Update(func(txn *lmdb.Txn) error {
 		dbi, err := txn.OpenDBI("d", lmdb.Create|flags)
 		if err != nil {
@@ -69,7 +74,13 @@ func verifC06(native bool, nEntries int, integer bool) {
 					zz.Assume(fl&1 == 0)
 				}
 				ts := zz.NondetU64(nm + ".ts")
-				stored := vStoredBytes(ts, zz.NondetU64(nm+".txn"), fl, ne, zz.NondetBytes(nm+".ext", 8*ne), app)
+				var ext []byte
+				if ne > 8 {
+					ext = bytes.Repeat([]byte{0xEE}, 8*ne) // large extension areas: concrete content
+				} else {
+					ext = zz.NondetBytes(nm+".ext", 8*ne)
+				}
+				stored := vStoredBytes(ts, zz.NondetU64(nm+".txn"), fl, ne, ext, app)
 				if err := txn.Put(dbi, k, stored, 0); err != nil {
 					return err
 				}
@@ -186,6 +197,17 @@ func verifC06(native bool, nEntries int, integer bool) {
 }
 
 func VerifC06Native()    { verifC06(true, 2, false) }
+
+// vC06BigHeaders switches the first entry's header to 255/256/257/512 extension blocks.
+var vC06BigHeaders bool
+
+// VerifC06BigHeader: the application value is found after an extension area of 2 KB and more
+// (the 16-bit block count at and around multiples of 256).
+func VerifC06BigHeader() {
+	vC06BigHeaders = true
+	verifC06(true, 2, false)
+	vC06BigHeaders = false
+}
 func VerifC06Shadow()    { verifC06(false, 2, false) }
 func VerifC06NativeInt() { verifC06(true, 2, true) }
 
